@@ -1,2 +1,691 @@
+//! Contracts on the fn / mod assemblers: delegating impl (C01), impl header (C04, C19),
+//! concrete dependencies (C05), visibility (C13), attribute placement (C18).
+use super::c_opts::{attr_for, Mode};
 use super::*;
-pub fn contracts() -> Vec<Contract> { vec![] }
+
+pub fn contracts() -> Vec<Contract> {
+    vec![
+        Contract { name: "c01_delegating_method_calls_own_fn", function: "fn_delegation_codegen.rs::FnDelegationCodegen::{gen_impl_block, gen_delegating_fn_item}, entrait_fn/mod.rs::{entrait_for_single_fn, entrait_for_mod}", props: &["C01", "C11"], run: c01_delegation },
+        Contract { name: "c04_impl_header_bounds", function: "analyze_generics.rs::{analyze_fn_deps, find_deps_generic_bounds}, fn_delegation_codegen.rs::gen_impl_block", props: &["C04", "C19"], run: c04_header },
+        Contract { name: "c05_concrete_dependency", function: "analyze_generics.rs::{extract_deps_from_type, detect_trait_dependency_mode}, trait_codegen.rs::gen_trait_def", props: &["C05", "C15"], run: c05_concrete },
+        Contract { name: "c13_trait_visibility", function: "entrait_fn/input_attr.rs::EntraitFnAttr::parse, trait_codegen.rs::TraitVisibility, entrait_fn/mod.rs::entrait_for_mod, entrait_trait/mod.rs::gen_impl_delegation_trait_defs", props: &["C13", "C08"], run: c13_visibility },
+        Contract { name: "c18_attribute_placement", function: "entrait_fn/mod.rs, signature/converter.rs::convert_fn_to_trait_fn, sub_attributes.rs::analyze_sub_attributes, trait_codegen.rs::gen_trait_def, fn_delegation_codegen.rs::gen_impl_block", props: &["C18", "C12"], run: c18_attrs },
+    ]
+}
+
+// ------------------------------------------------------------------------------------ generators
+
+#[derive(Clone, Copy, PartialEq, Eq, Debug)]
+pub enum Deps {
+    RefGeneric,   // <D>(deps: &D)
+    ValGeneric,   // <D>(deps: D)
+    RefImpl,      // (deps: &impl Bar)
+    ValImpl,      // (deps: impl Bar)
+    Concrete,     // (deps: &App)
+    NoDeps,       // no_deps
+}
+
+pub const PARAMS: [(&str, &str); 7] = [
+    ("a", "i32"),
+    ("b", "i32"),
+    ("mut c", "String"),
+    ("_", "u8"),
+    ("(x, y)", "(i32, i32)"),
+    ("Wrap(w)", "Wrap"),
+    ("r#type", "u16"),
+];
+
+pub fn fn_source(name: &str, vis: &str, is_async: bool, deps: Deps, params: &[usize], ret: &str) -> String {
+    let mut ps: Vec<String> = vec![];
+    let generics = match deps {
+        Deps::RefGeneric | Deps::ValGeneric => "<D>",
+        _ => "",
+    };
+    match deps {
+        Deps::RefGeneric => ps.push("deps: &D".into()),
+        Deps::ValGeneric => ps.push("deps: D".into()),
+        Deps::RefImpl => ps.push("deps: &impl Bar".into()),
+        Deps::ValImpl => ps.push("deps: impl Bar".into()),
+        Deps::Concrete => ps.push("deps: &App".into()),
+        Deps::NoDeps => {}
+    }
+    for p in params {
+        ps.push(format!("{}: {}", PARAMS[*p].0, PARAMS[*p].1));
+    }
+    format!("{} {} fn {}{}({}) {} {{ body_of!({}) }}", vis, if is_async { "async" } else { "" }, name, generics, ps.join(", "), ret, name)
+}
+
+fn call_parts(e: &syn::Expr) -> Option<(bool, &syn::ExprCall)> {
+    match e {
+        syn::Expr::Await(a) => match a.base.as_ref() {
+            syn::Expr::Call(c) => Some((true, c)),
+            _ => None,
+        },
+        syn::Expr::Call(c) => Some((false, c)),
+        _ => None,
+    }
+}
+
+fn typed_idents(sig: &syn::Signature) -> Vec<Option<String>> {
+    sig.inputs
+        .iter()
+        .filter_map(|a| match a {
+            syn::FnArg::Typed(pt) => Some(match pt.pat.as_ref() {
+                syn::Pat::Ident(pi) => Some(pi.ident.to_string()),
+                _ => None,
+            }),
+            _ => None,
+        })
+        .collect()
+}
+
+/// the contract of C01 on one impl method: body is exactly `[Self::]f([self,] p1, .., pn)[.await]`
+pub fn check_delegating_method(r: &mut Report, input: &str, m: &syn::ImplItemFn, fn_name: &str, want_self: bool, want_await: bool, n_params: usize, scoped: bool) {
+    if m.sig.ident != fn_name {
+        r.fail("method-name", input, format!("method `{}` where `{}` was expected", m.sig.ident, fn_name));
+    }
+    let idents = typed_idents(&m.sig);
+    if idents.len() != n_params {
+        r.fail("arity", input, format!("method `{}` declares {} typed parameters, the function has {}", fn_name, idents.len(), n_params));
+    }
+    if m.block.stmts.len() != 1 {
+        r.fail("body-shape", input, format!("method body has {} statements, expected the single forwarding call", m.block.stmts.len()));
+        return;
+    }
+    let e = match &m.block.stmts[0] {
+        syn::Stmt::Expr(e, None) => e,
+        _ => {
+            r.fail("body-shape", input, "method body is not a tail expression".into());
+            return;
+        }
+    };
+    let (awaited, call) = match call_parts(e) {
+        Some(x) => x,
+        None => {
+            r.fail("body-shape", input, format!("method body is not a call: {}", tt_string(e)));
+            return;
+        }
+    };
+    if awaited != want_await {
+        r.fail("await", input, format!("`.await` {} but the function is {}", if awaited { "present" } else { "absent" }, if want_await { "async" } else { "sync" }));
+    }
+    let callee = tt_string(&call.func).replace(' ', "");
+    let want_callee = if scoped { format!("Self::{}", fn_name) } else { fn_name.to_string() };
+    if callee != want_callee {
+        r.fail("callee", input, format!("method `{}` calls `{}`, expected `{}`", fn_name, callee, want_callee));
+    }
+    let args: Vec<String> = call.args.iter().map(|a| tt_string(a)).collect();
+    let mut want: Vec<String> = vec![];
+    if want_self {
+        want.push("self".into());
+    }
+    for (i, id) in idents.iter().enumerate() {
+        match id {
+            Some(s) => want.push(s.clone()),
+            None => {
+                r.fail("param-not-ident", input, format!("typed parameter {} of `{}` is not a plain identifier", i, fn_name));
+                want.push("?".into());
+            }
+        }
+    }
+    if args != want {
+        r.fail("arguments", input, format!("call passes ({}) but the declared parameters are ({})", args.join(", "), want.join(", ")));
+    }
+}
+
+pub fn impl_methods(i: &syn::ItemImpl) -> Vec<&syn::ImplItemFn> {
+    i.items
+        .iter()
+        .filter_map(|x| match x {
+            syn::ImplItem::Fn(m) => Some(m),
+            _ => None,
+        })
+        .collect()
+}
+
+pub fn trait_methods(t: &syn::ItemTrait) -> Vec<&syn::TraitItemFn> {
+    t.items
+        .iter()
+        .filter_map(|x| match x {
+            syn::TraitItem::Fn(m) => Some(m),
+            _ => None,
+        })
+        .collect()
+}
+
+fn c01_delegation(ctx: &Ctx, r: &mut Report) {
+    let max = if ctx.tier == Tier::Thorough { 4 } else { 3 };
+    r.domain = "fn and 2-fn mod inputs; deps {&D, D, &impl Bar, impl Bar, &App (fn only), no_deps} x {sync, async} x parameter lists over {a:i32, b:i32, mut c:String, _:u8, (x,y), Wrap(w), r#type}".into();
+    r.bound = format!("arity 0..{}; module = two fns with the same parameter list; mock options {{none, mockall}}", max);
+    for mode in [Mode::Fn, Mode::Mod] {
+        for deps in [Deps::RefGeneric, Deps::ValGeneric, Deps::RefImpl, Deps::ValImpl, Deps::Concrete, Deps::NoDeps] {
+            if mode == Mode::Mod && deps == Deps::Concrete {
+                continue;
+            }
+            for is_async in [false, true] {
+                for n in 0..=max {
+                    // quick: full product up to arity 2, arity >= 3 over a sliding selection
+                    let seqs: Vec<Vec<usize>> = if n <= 2 { sequences(PARAMS.len(), n) } else { (0..PARAMS.len()).map(|s| (0..n).map(|k| (s + k * 2) % PARAMS.len()).collect()).collect() };
+                    for ps in seqs {
+                        for mock in ["", "mockall"] {
+                            let mut opts: Vec<String> = vec![];
+                            if deps == Deps::NoDeps {
+                                opts.push("no_deps".into());
+                            }
+                            if !mock.is_empty() {
+                                opts.push(mock.into());
+                            }
+                            let attr = attr_for(Mode::Fn, &opts);
+                            let names: Vec<&str> = if mode == Mode::Fn { vec!["f"] } else { vec!["f", "g"] };
+                            let fns: Vec<String> = names.iter().map(|nm| fn_source(nm, if mode == Mode::Mod { "pub" } else { "" }, is_async, deps, &ps, "-> i32")).collect();
+                            let item = if mode == Mode::Fn { fns[0].clone() } else { format!("mod m {{ {} fn private_helper() {{}} }}", fns.join(" ")) };
+                            let input = format!("#[entrait({})] {}", attr, item);
+                            r.guarded(&input, |r| {
+                                let out = expand(Variant::Entrait, &attr, &item);
+                                if let Some(e) = compile_error_of(&out) {
+                                    r.fail("unexpected-error", &input, e);
+                                    return;
+                                }
+                                let file = match parse_file(&out) {
+                                    Ok(f) => f,
+                                    Err(e) => {
+                                        r.fail("unparsable", &input, e);
+                                        return;
+                                    }
+                                };
+                                let items: &Vec<syn::Item> = if mode == Mode::Fn { &file.items } else { mod_items(&file.items, "m").unwrap_or(&file.items) };
+                                let impls = find_impls(items, "Tr");
+                                if impls.len() != 1 {
+                                    r.fail("impl-count", &input, format!("expected exactly one `impl Tr for ..`, found {}", impls.len()));
+                                    return;
+                                }
+                                let ms = impl_methods(impls[0]);
+                                let tr = find_trait(items, "Tr");
+                                let tms = tr.map(trait_methods).unwrap_or_default();
+                                if ms.len() != names.len() || tms.len() != names.len() {
+                                    r.fail("method-count", &input, format!("{} fns, {} trait methods, {} impl methods", names.len(), tms.len(), ms.len()));
+                                    return;
+                                }
+                                for (k, nm) in names.iter().enumerate() {
+                                    check_delegating_method(r, &input, ms[k], nm, deps != Deps::NoDeps, is_async, ps.len(), false);
+                                    if tms[k].sig.ident != *nm {
+                                        r.fail("trait-method-order", &input, format!("trait method {} is `{}`, expected `{}`", k, tms[k].sig.ident, nm));
+                                    }
+                                    // receiver shape: by-value deps -> `self`, otherwise `&self`
+                                    match ms[k].sig.inputs.first() {
+                                        Some(syn::FnArg::Receiver(rc)) => {
+                                            let by_ref = rc.reference.is_some();
+                                            let want_ref = !matches!(deps, Deps::ValGeneric | Deps::ValImpl);
+                                            if by_ref != want_ref || rc.mutability.is_some() {
+                                                r.fail("receiver", &input, format!("receiver is `{}`", tt_string(rc)));
+                                            }
+                                        }
+                                        _ => r.fail("receiver", &input, "generated method has no receiver".into()),
+                                    }
+                                }
+                            });
+                        }
+                    }
+                }
+            }
+        }
+    }
+}
+
+// ------------------------------------------------------------------------------------ C04
+
+/// ways of declaring dependency bounds; each yields (generics, first param, where clause, declared bounds in order)
+fn bound_decls() -> Vec<(&'static str, &'static str, &'static str, Vec<&'static str>)> {
+    vec![
+        ("<D>", "deps: &D", "", vec![]),
+        ("<D: A>", "deps: &D", "", vec!["A"]),
+        ("<D: A + B>", "deps: &D", "", vec!["A", "B"]),
+        ("<D>", "deps: &D", "where D: A", vec!["A"]),
+        ("<D>", "deps: &D", "where D: A + B", vec!["A", "B"]),
+        ("<D: A>", "deps: &D", "where D: B", vec!["A", "B"]),
+        ("<D>", "deps: &D", "where D: A, D: B", vec!["A", "B"]),
+        ("<D: A>", "deps: &D", "where D: B, D: C", vec!["A", "B", "C"]),
+        ("<D: A, T: Clone>", "deps: &D", "where T: Copy, D: B", vec!["A", "B"]),
+        ("", "deps: &impl A", "", vec!["A"]),
+        ("", "deps: &(impl A + B)", "", vec!["A", "B"]),
+        ("", "deps: impl A + B", "", vec!["A", "B"]),
+        ("<D: A>", "deps: D", "where D: B", vec!["A", "B"]),
+        ("<D: path::A<u8> + 'static>", "deps: &D", "", vec!["path :: A < u8 >", "'static"]),
+    ]
+}
+
+fn bound_strings(b: &syn::punctuated::Punctuated<syn::TypeParamBound, syn::token::Plus>) -> Vec<String> {
+    b.iter().map(|x| tt_string(x)).collect()
+}
+
+fn c04_header(_ctx: &Ctx, r: &mut Report) {
+    r.domain = "14 ways of declaring 0..3 dependency bounds (inline, where, split, several predicates, impl A + B, by value) x {fn, mod of two fns with different declarations} x mock settings {none, mockall, unimock + mock_api}".into();
+    r.bound = "exhaustive over the listed declarations and all ordered pairs for modules".into();
+    let decls = bound_decls();
+    let mocks: [(&str, bool); 3] = [("", false), ("mockall", true), ("unimock, mock_api = TrMock", true)];
+    let mut cases: Vec<(String, String, Vec<String>, bool, bool)> = vec![]; // (attr, item, bounds, by_value, mockable)
+    for (mock, mockable) in mocks {
+        let attr = if mock.is_empty() { "Tr".to_string() } else { format!("Tr, {}", mock) };
+        for (g, p, w, bs) in &decls {
+            let by_value = !p.contains('&');
+            let item = format!("fn f{}({}, x: i32) {} {{}}", g, p, w);
+            cases.push((attr.clone(), item, bs.iter().map(|s| s.to_string()).collect(), by_value, mockable));
+        }
+        for (g1, p1, w1, b1) in &decls {
+            for (g2, p2, w2, b2) in &decls {
+                let item = format!("mod m {{ pub fn f{}({}) {} {{}} pub fn g{}({}, y: u8) {} {{}} }}", g1, p1, w1, g2, p2, w2);
+                let mut bs: Vec<String> = b1.iter().map(|s| s.to_string()).collect();
+                bs.extend(b2.iter().map(|s| s.to_string()));
+                cases.push((attr.clone(), item, bs, !p1.contains('&') || !p2.contains('&'), mockable));
+            }
+        }
+    }
+    for (attr, item, bounds, by_value, mockable) in cases {
+        let input = format!("#[entrait({})] {}", attr, item);
+        r.guarded(&input, |r| {
+            let out = expand(Variant::Entrait, &attr, &item);
+            if let Some(e) = compile_error_of(&out) {
+                r.fail("unexpected-error", &input, e);
+                return;
+            }
+            let file = match parse_file(&out) {
+                Ok(f) => f,
+                Err(e) => {
+                    r.fail("unparsable", &input, e);
+                    return;
+                }
+            };
+            let items: &Vec<syn::Item> = mod_items(&file.items, "m").unwrap_or(&file.items);
+            let impls = find_impls(items, "Tr");
+            if impls.len() != 1 {
+                r.fail("impl-count", &input, format!("expected one impl of Tr, found {}", impls.len()));
+                return;
+            }
+            let im = impls[0];
+            // impl generics: EntraitT: ::core::marker::Sync [+ ::core::marker::Send] + 'static first
+            let first = im.generics.params.first();
+            match first {
+                Some(syn::GenericParam::Type(tp)) if tp.ident == "EntraitT" => {
+                    let got = bound_strings(&tp.bounds);
+                    let mut want = vec![":: core :: marker :: Sync".to_string()];
+                    if by_value {
+                        want.push(":: core :: marker :: Send".to_string());
+                    }
+                    want.push("'static".to_string());
+                    if got != want {
+                        r.fail("thread-safety-bounds", &input, format!("EntraitT: {} but the fixed requirement is {}", got.join(" + "), want.join(" + ")));
+                    }
+                }
+                _ => r.fail("impl-generics", &input, "first impl generic is not EntraitT".into()),
+            }
+            // self type
+            let self_ty = tt_string(&im.self_ty);
+            let want_ty = if mockable { ":: entrait :: Impl < EntraitT >" } else { "EntraitT" };
+            if self_ty != want_ty {
+                r.fail("self-type", &input, format!("implemented for `{}`, expected `{}`", self_ty, want_ty));
+            }
+            // where clause: exactly `Self: B1 + .. + Bn` (plus lifted non-deps predicates)
+            let mut self_bounds: Option<Vec<String>> = None;
+            let mut n_self_preds = 0;
+            if let Some(wc) = &im.generics.where_clause {
+                for p in &wc.predicates {
+                    if let syn::WherePredicate::Type(pt) = p {
+                        if tt_string(&pt.bounded_ty) == "Self" {
+                            n_self_preds += 1;
+                            self_bounds = Some(bound_strings(&pt.bounds));
+                        }
+                    }
+                }
+            }
+            if bounds.is_empty() {
+                if n_self_preds != 0 {
+                    r.fail("undeclared-requirement", &input, format!("no bound was declared but the impl requires Self: {}", self_bounds.unwrap_or_default().join(" + ")));
+                }
+            } else {
+                match self_bounds {
+                    Some(got) if n_self_preds == 1 => {
+                        if got != bounds {
+                            r.fail("bounds-mismatch", &input, format!("declared bounds [{}] but the impl requires Self: [{}]", bounds.join(", "), got.join(", ")));
+                        }
+                    }
+                    _ => r.fail("bounds-dropped", &input, format!("declared bounds [{}] but the impl has {} `Self:` predicates", bounds.join(", "), n_self_preds)),
+                }
+            }
+        });
+    }
+}
+
+// ------------------------------------------------------------------------------------ C05
+
+fn c05_concrete(_ctx: &Ctx, r: &mut Report) {
+    r.domain = "concrete dependency type shapes {App, path::App, App<u8>, (A, B), &'a App, [u8; 4], &mut-free references, parenthesised} x {sync, async} x {fn, mod, impl block}".into();
+    r.bound = "exhaustive over the listed shapes".into();
+    let shapes: [(&str, &str, &str); 8] = [
+        ("", "&App", "App"),
+        ("", "&path::to::App", "path :: to :: App"),
+        ("", "&App<u8>", "App < u8 >"),
+        ("", "&(A, B)", "(A , B)"),
+        ("<'a>", "&'a App", "App"),
+        ("", "&[u8; 4]", "[u8 ; 4]"),
+        ("", "App", "App"),
+        ("", "&(App)", "App"),
+    ];
+    for (g, ty, want_self) in shapes {
+        for is_async in [false, true] {
+            let item = format!("{} fn f{}(deps: {}, a: i32) -> i32 {{ a }}", if is_async { "async" } else { "" }, g, ty);
+            let input = format!("#[entrait(Tr)] {}", item);
+            r.guarded(&input, |r| {
+                let out = expand(Variant::Entrait, "Tr", &item);
+                if let Some(e) = compile_error_of(&out) {
+                    r.fail("unexpected-error", &input, e);
+                    return;
+                }
+                let file = match parse_file(&out) {
+                    Ok(f) => f,
+                    Err(e) => {
+                        r.fail("unparsable", &input, e);
+                        return;
+                    }
+                };
+                let tr = match find_trait(&file.items, "Tr") {
+                    Some(t) => t,
+                    None => {
+                        r.fail("no-trait", &input, "trait not found".into());
+                        return;
+                    }
+                };
+                let nested: Vec<String> = tr.attrs.iter().map(|a| tt_string(a)).filter(|s| s.contains("entrait :: entrait")).collect();
+                if nested != vec!["# [:: entrait :: entrait (unimock = false , mockall = false)]".to_string()] {
+                    r.fail("nested-attribute", &input, format!("leaf trait must carry exactly #[::entrait::entrait(unimock = false, mockall = false)], found {:?}", nested));
+                }
+                let impls = find_impls(&file.items, "Tr");
+                if impls.len() != 1 {
+                    r.fail("impl-count", &input, format!("{} impls", impls.len()));
+                    return;
+                }
+                let st = tt_string(&impls[0].self_ty);
+                if st != want_self {
+                    r.fail("self-type", &input, format!("implemented for `{}`, expected the concrete type `{}`", st, want_self));
+                }
+                if impls[0].generics.params.iter().any(|p| matches!(p, syn::GenericParam::Type(t) if t.ident == "EntraitT")) {
+                    r.fail("blanket-generic", &input, "concrete impl must not be generic over EntraitT".into());
+                }
+                let ms = impl_methods(impls[0]);
+                if ms.len() == 1 {
+                    check_delegating_method(r, &input, ms[0], "f", true, is_async, 1, false);
+                }
+            });
+        }
+    }
+    // documented diagnostics for module / impl-block inputs
+    for (item, needle) in [
+        ("mod m { pub fn f(deps: &App) {} }", "Using concrete dependencies in a module is an anti-pattern"),
+        ("impl TrImpl for X { fn f(deps: &App) {} }", "Cannot (yet) use concrete dependency in an impl block"),
+    ] {
+        let attr = if item.starts_with("mod") { "Tr" } else { "" };
+        let input = format!("#[entrait({})] {}", attr, item);
+        r.guarded(&input, |r| {
+            let out = expand(Variant::Entrait, attr, item);
+            match compile_error_of(&out) {
+                Some(e) if e.contains(needle) => {}
+                Some(e) => r.fail("wrong-diagnostic", &input, format!("got {}", e)),
+                None => r.fail("no-diagnostic", &input, "expected a diagnostic".into()),
+            }
+        });
+    }
+}
+
+// ------------------------------------------------------------------------------------ C13
+
+fn c13_visibility(_ctx: &Ctx, r: &mut Report) {
+    r.domain = "requested visibility {none, pub, pub(crate), pub(super), pub(in crate::a)} x fn visibility {none, pub, pub(crate)} x {fn, mod}; trait inputs with delegation target x trait visibility {none, pub, pub(crate)} x {static, dynamic}".into();
+    r.bound = "exhaustive".into();
+    let req = ["", "pub", "pub(crate)", "pub(super)", "pub(in crate::a)"];
+    for rv in req {
+        for fv in ["", "pub", "pub(crate)"] {
+            for mode in [Mode::Fn, Mode::Mod] {
+                let attr = format!("{} Tr", rv);
+                let item = if mode == Mode::Fn { format!("{} fn f(deps: &impl Any) {{}}", fv) } else { format!("{} mod m {{ pub fn f(deps: &impl Any) {{}} }}", fv) };
+                let input = format!("#[entrait({})] {}", attr, item);
+                r.guarded(&input, |r| {
+                    let out = expand(Variant::Entrait, &attr, &item);
+                    if let Some(e) = compile_error_of(&out) {
+                        r.fail("unexpected-error", &input, e);
+                        return;
+                    }
+                    let file = match parse_file(&out) {
+                        Ok(f) => f,
+                        Err(e) => {
+                            r.fail("unparsable", &input, e);
+                            return;
+                        }
+                    };
+                    let want = tt_string(&syn::parse_str::<syn::Visibility>(rv).unwrap());
+                    if mode == Mode::Fn {
+                        let tr = find_trait(&file.items, "Tr");
+                        match tr {
+                            Some(t) => {
+                                let got = tt_string(&t.vis);
+                                if got != want {
+                                    r.fail("trait-visibility", &input, format!("trait is `{}`, requested `{}`", got, want));
+                                }
+                            }
+                            None => r.fail("no-trait", &input, "trait not found".into()),
+                        }
+                    } else {
+                        let inner = mod_items(&file.items, "m").and_then(|it| find_trait(it, "Tr"));
+                        match inner {
+                            Some(t) => {
+                                let got = tt_string(&t.vis);
+                                let want_inner = if rv.is_empty() { "pub (super)".to_string() } else { want.clone() };
+                                if got != want_inner {
+                                    r.fail("trait-visibility", &input, format!("trait inside the module is `{}`, expected `{}`", got, want_inner));
+                                }
+                            }
+                            None => r.fail("no-trait", &input, "trait not found in module".into()),
+                        }
+                        let uses: Vec<&syn::ItemUse> = file.items.iter().filter_map(|i| if let syn::Item::Use(u) = i { Some(u) } else { None }).collect();
+                        if uses.len() != 1 {
+                            r.fail("re-export", &input, format!("expected exactly one re-export next to the module, found {}", uses.len()));
+                        } else {
+                            let got = tt_string(&uses[0].vis);
+                            if got != want {
+                                r.fail("re-export-visibility", &input, format!("re-export is `{}`, requested `{}`", got, want));
+                            }
+                            if tt_string(&uses[0].tree) != "m :: Tr" {
+                                r.fail("re-export-path", &input, format!("re-export names `{}`", tt_string(&uses[0].tree)));
+                            }
+                        }
+                    }
+                });
+            }
+        }
+    }
+    for tv in ["", "pub", "pub(crate)"] {
+        for (attr, _kind) in [("TrImpl, delegate_by = DelegateTr", "static"), ("TrImpl, delegate_by = ref", "dynamic")] {
+            let item = format!("{} trait Tr {{ fn f(&self, a: i32) -> i32; }}", tv);
+            let input = format!("#[entrait({})] {}", attr, item);
+            r.guarded(&input, |r| {
+                let out = expand(Variant::Entrait, attr, &item);
+                if let Some(e) = compile_error_of(&out) {
+                    r.fail("unexpected-error", &input, e);
+                    return;
+                }
+                let file = match parse_file(&out) {
+                    Ok(f) => f,
+                    Err(e) => {
+                        r.fail("unparsable", &input, e);
+                        return;
+                    }
+                };
+                let want = tt_string(&syn::parse_str::<syn::Visibility>(tv).unwrap());
+                for name in ["Tr", "TrImpl"] {
+                    match find_trait(&file.items, name) {
+                        Some(t) => {
+                            if tt_string(&t.vis) != want {
+                                r.fail("target-trait-visibility", &input, format!("trait {} is `{}`, the original trait is `{}`", name, tt_string(&t.vis), want));
+                            }
+                        }
+                        None => r.fail("no-trait", &input, format!("trait {} not found", name)),
+                    }
+                }
+            });
+        }
+    }
+}
+
+// ------------------------------------------------------------------------------------ C18
+
+fn attr_strings(a: &[syn::Attribute]) -> Vec<String> {
+    a.iter().map(|x| tt_string(x)).collect()
+}
+
+fn c18_attrs(_ctx: &Ctx, r: &mut Report) {
+    r.domain = "fn / mod / trait / impl-block inputs carrying {doc, inline, foreign macro, async_trait (bare, path, with args), automock, cfg} attributes on the item, its fns, parameters and trait methods".into();
+    r.bound = "all subsets of size <= 3 of 7 item attributes x {fn}; fixed placements for mod / trait / impl".into();
+    let pool = ["#[doc = \"d\"]", "#[inline]", "#[other::mac(1, 2)]", "#[async_trait]", "#[some::path::async_trait(?Send)]", "#[automock]", "#[allow(unused)]"];
+    for sub in subsets(pool.len()) {
+        if sub.len() > 3 {
+            continue;
+        }
+        let attrs: Vec<&str> = sub.iter().map(|i| pool[*i]).collect();
+        let item = format!("{} pub async fn f(#[allow(unused)] deps: &impl Any, #[cfg(all())] a: i32) -> i32 {{ a }}", attrs.join(" "));
+        let input = format!("#[entrait(Tr)] {}", item);
+        r.guarded(&input, |r| {
+            let out = expand(Variant::Entrait, "Tr", &item);
+            if let Some(e) = compile_error_of(&out) {
+                r.fail("unexpected-error", &input, e);
+                return;
+            }
+            let file = match parse_file(&out) {
+                Ok(f) => f,
+                Err(e) => {
+                    r.fail("unparsable", &input, e);
+                    return;
+                }
+            };
+            let want: Vec<String> = attrs.iter().map(|a| tt_string(&ts(a))).collect();
+            // the fn keeps every attribute, once, in order
+            let fns: Vec<&syn::ItemFn> = file.items.iter().filter_map(|i| if let syn::Item::Fn(f) = i { Some(f) } else { None }).collect();
+            if fns.len() != 1 {
+                r.fail("fn-count", &input, format!("{} fns in the expansion", fns.len()));
+                return;
+            }
+            if attr_strings(&fns[0].attrs) != want {
+                r.fail("fn-attributes", &input, format!("fn carries {:?}, written {:?}", attr_strings(&fns[0].attrs), want));
+            }
+            let is_at = |s: &String| s.contains("async_trait");
+            let is_am = |s: &String| s.contains("automock");
+            let (tr, im) = (find_trait(&file.items, "Tr"), find_impls(&file.items, "Tr"));
+            if let Some(t) = tr {
+                let got = attr_strings(&t.attrs);
+                let exp: Vec<String> = want.iter().filter(|s| is_at(s) || is_am(s)).cloned().collect();
+                if got != exp {
+                    r.fail("trait-attributes", &input, format!("generated trait carries {:?}, expected only the re-applied {:?}", got, exp));
+                }
+                for m in trait_methods(t) {
+                    for a in &m.sig.inputs {
+                        let n = match a {
+                            syn::FnArg::Typed(p) => p.attrs.len(),
+                            syn::FnArg::Receiver(rc) => rc.attrs.len(),
+                        };
+                        if n != 0 {
+                            r.fail("param-attributes", &input, "parameter attribute survived in the generated signature".into());
+                        }
+                    }
+                    if !m.attrs.is_empty() {
+                        r.fail("method-attributes", &input, format!("trait method carries {:?}", attr_strings(&m.attrs)));
+                    }
+                }
+            }
+            if im.len() == 1 {
+                let got = attr_strings(&im[0].attrs);
+                let exp: Vec<String> = want.iter().filter(|s| is_at(s)).cloned().collect();
+                if got != exp {
+                    r.fail("impl-attributes", &input, format!("generated impl carries {:?}, expected only {:?}", got, exp));
+                }
+            }
+        });
+    }
+    // trait methods: attributes mirrored onto the delegating methods, in order
+    for mattrs in ["", "#[cfg(all())]", "#[doc = \"m\"] #[cfg(feature = \"x\")]"] {
+        let item = format!("#[doc = \"t\"] trait Tr {{ {} fn f(&self, a: i32) -> i32; fn g(&self); }}", mattrs);
+        let input = format!("#[entrait()] {}", item);
+        r.guarded(&input, |r| {
+            let out = expand(Variant::Entrait, "", &item);
+            if let Some(e) = compile_error_of(&out) {
+                r.fail("unexpected-error", &input, e);
+                return;
+            }
+            let file = match parse_file(&out) {
+                Ok(f) => f,
+                Err(e) => {
+                    r.fail("unparsable", &input, e);
+                    return;
+                }
+            };
+            let want: Vec<String> = syn::parse::Parser::parse2(syn::Attribute::parse_outer, ts(mattrs)).unwrap().iter().map(|a| tt_string(a)).collect();
+            let t = find_trait(&file.items, "Tr");
+            let im = find_impls(&file.items, "Tr");
+            if let (Some(t), Some(im)) = (t, im.first()) {
+                let tm = trait_methods(t);
+                let mm = impl_methods(im);
+                if tm.len() != 2 || mm.len() != 2 {
+                    r.fail("method-count", &input, format!("{} trait methods, {} impl methods", tm.len(), mm.len()));
+                    return;
+                }
+                if attr_strings(&tm[0].attrs) != want {
+                    r.fail("trait-method-attributes", &input, format!("trait method carries {:?}, written {:?}", attr_strings(&tm[0].attrs), want));
+                }
+                if attr_strings(&mm[0].attrs) != want {
+                    r.fail("mirrored-attributes", &input, format!("delegating method carries {:?}, the trait method {:?}", attr_strings(&mm[0].attrs), want));
+                }
+                if !mm[1].attrs.is_empty() || !tm[1].attrs.is_empty() {
+                    r.fail("attribute-leak", &input, "attributes of one method leaked onto another".into());
+                }
+            } else {
+                r.fail("shape", &input, "trait or impl missing".into());
+            }
+        });
+    }
+    // cfg-disabled functions of a module / impl block must not leave a dangling trait method behind
+    for (attr, item, tname) in [
+        ("Tr", "mod m { #[cfg(any())] pub fn f(deps: &impl Any) {} pub fn g(deps: &impl Any) {} }", "Tr"),
+        ("", "impl TrImpl for X { #[cfg(any())] fn f<D>(deps: &D) {} fn g<D>(deps: &D) {} }", "TrImpl"),
+    ] {
+        let input = format!("#[entrait({})] {}", attr, item);
+        r.guarded(&input, |r| {
+            let out = expand(Variant::Entrait, attr, item);
+            if let Some(e) = compile_error_of(&out) {
+                r.fail("unexpected-error", &input, e);
+                return;
+            }
+            let file = match parse_file(&out) {
+                Ok(f) => f,
+                Err(e) => {
+                    r.fail("unparsable", &input, e);
+                    return;
+                }
+            };
+            let items: &Vec<syn::Item> = mod_items(&file.items, "m").unwrap_or(&file.items);
+            let mut dangling = vec![];
+            if let Some(t) = find_trait(items, tname) {
+                for m in trait_methods(t) {
+                    if m.sig.ident == "f" && !attr_strings(&m.attrs).iter().any(|a| a.contains("cfg")) {
+                        dangling.push("trait method `f` is declared unconditionally".to_string());
+                    }
+                }
+            }
+            for im in find_impls(items, tname) {
+                for m in impl_methods(im) {
+                    if m.sig.ident == "f" && !attr_strings(&m.attrs).iter().any(|a| a.contains("cfg")) {
+                        dangling.push("delegating method `f` is emitted unconditionally".to_string());
+                    }
+                }
+            }
+            if !dangling.is_empty() {
+                r.fail("cfg-dangling-method", &input, dangling.join("; "));
+            }
+        });
+    }
+}
